@@ -15,10 +15,17 @@ package data_model
 // map, i.e. in an order the program cannot control, so "the i-th draw" does not identify a value. To keep executions
 // reproducible the explorer decides keep/evict PER VALUE (in sorted key order) at the start of a pass; the hook
 // answers the draws following a guessed iteration order, and the step is verified afterwards: if the values evicted
-// are not the planned ones (wrong guess) the step is redone on a fresh deep copy of the row with the next guess
-// (same decisions). A step therefore always ends in exactly the planned outcome, every combination of per-value
+// are not the planned ones (wrong guess) the step is redone on a deep copy of the row as it was before the step, with
+// the next guess (same decisions). A step therefore always ends in exactly the planned outcome, every combination of per-value
 // outcomes is reached, and replays are identical. Beyond sample factor 2^maxFreeLog2 the plan is pinned to "evict"
 // (otherwise the loop `for len(Top) >= capacity { resample }` has unboundedly deep branches of vanishing probability).
+//
+// One row object per history. The row lives through the whole history exactly as in production: every event is
+// applied to the same *MultiItem (attempt 0 of a step runs on the live object), so any private per-row state the code
+// keeps between calls (lookup memos, cursors, caches) takes part in the following events; histories write values again
+// after they were evicted into the tail. The copy that is put aside before a step for the (rare) retry is a reflective
+// deep copy of EVERY field with pointer aliasing preserved (c07Clone), not a list of the fields known today; it is
+// self-tested before the exploration.
 //
 // Oracle (the statement, nothing more): after every event, count, sum, min and max over retained values plus tail equal
 // the fold of all events written; after FinishStringTop(n) at most max(n,0) values remain, every retained value is
@@ -262,13 +269,23 @@ func c07Clone(it *MultiItem) *MultiItem {
 
 func c07DeepCopy(src unsafe.Pointer, t reflect.Type) unsafe.Pointer {
 	c := reflect.New(t).UnsafePointer()
-	cl := c07Cloner{}
+	cl := c07Cloner{ranges: make([]c07Range, 0, 8), slots: make([]c07Slot, 0, 8), topSlots: make([]c07TopSlot, 0, 4)}
 	cl.ranges = append(cl.ranges, c07Range{old: uintptr(src), size: t.Size(), new: c})
 	cl.copyInto(c, src, t)
 	// a pointer into the middle of an allocation that was copied only later was given a separate copy: redirect it
 	for _, s := range cl.slots {
 		if np := cl.translate(s.old); np != nil && np != *s.dst {
 			*s.dst = np
+		}
+	}
+	for _, s := range cl.topSlots {
+		if np := (*MultiValue)(cl.translate(s.old)); np != nil && np != s.m[s.k] {
+			s.m[s.k] = np
+		}
+	}
+	for _, s := range cl.mapSlots {
+		if np := cl.translate(s.old); np != nil && np != s.m.MapIndex(s.k).UnsafePointer() {
+			s.m.SetMapIndex(s.k, reflect.NewAt(s.m.Type().Elem().Elem(), np))
 		}
 	}
 	return c
@@ -323,10 +340,40 @@ type c07Slot struct {
 	old uintptr
 }
 
+// map values are stored by value: a pointer stored in a map is redirected through the map
+type c07MapSlot struct {
+	m, k reflect.Value
+	old  uintptr
+}
+
+type c07TopSlot struct {
+	m   map[TagUnion]*MultiValue
+	k   TagUnion
+	old uintptr
+}
+
+var c07TopType = reflect.TypeOf(map[TagUnion]*MultiValue(nil))
+
 type c07Cloner struct {
-	ranges []c07Range
-	slots  []c07Slot
-	maps   map[unsafe.Pointer]reflect.Value
+	ranges   []c07Range
+	slots    []c07Slot
+	mapSlots []c07MapSlot
+	topSlots []c07TopSlot
+	maps     []c07MapCopy
+}
+
+type c07MapCopy struct {
+	old unsafe.Pointer
+	new reflect.Value
+}
+
+func (cl *c07Cloner) mapCopy(old unsafe.Pointer) (reflect.Value, bool) {
+	for _, m := range cl.maps {
+		if m.old == old {
+			return m.new, true
+		}
+	}
+	return reflect.Value{}, false
 }
 
 var c07HasPtrCache sync.Map // reflect.Type -> bool
@@ -430,21 +477,47 @@ func (cl *c07Cloner) copyInto(dst, src unsafe.Pointer, t reflect.Type) {
 		*(*unsafe.Pointer)(dst) = np
 		cl.copyInto(np, p, et)
 	case reflect.Map:
+		if t == c07TopType { // same as the general case below, without reflection (this map is nearly all of the cost)
+			sm := *(*map[TagUnion]*MultiValue)(src)
+			if sm == nil {
+				return
+			}
+			mp := reflect.NewAt(t, src).Elem().UnsafePointer()
+			if m, ok := cl.mapCopy(mp); ok {
+				reflect.NewAt(t, dst).Elem().Set(m)
+				return
+			}
+			tm := make(map[TagUnion]*MultiValue, len(sm))
+			for k, v := range sm {
+				if v != nil {
+					nv := (*MultiValue)(cl.translate(uintptr(unsafe.Pointer(v))))
+					if nv == nil {
+						nv = &MultiValue{}
+						cl.ranges = append(cl.ranges, c07Range{old: uintptr(unsafe.Pointer(v)), size: unsafe.Sizeof(*v), new: unsafe.Pointer(nv)})
+						cl.copyInto(unsafe.Pointer(nv), unsafe.Pointer(v), c07TopType.Elem().Elem())
+					}
+					tm[k] = nv
+					cl.topSlots = append(cl.topSlots, c07TopSlot{m: tm, k: k, old: uintptr(unsafe.Pointer(v))})
+				} else {
+					tm[k] = nil
+				}
+			}
+			*(*map[TagUnion]*MultiValue)(dst) = tm
+			cl.maps = append(cl.maps, c07MapCopy{old: mp, new: reflect.ValueOf(tm)})
+			return
+		}
 		sv := reflect.NewAt(t, src).Elem()
 		dv := reflect.NewAt(t, dst).Elem()
 		if sv.IsNil() {
 			dv.Set(sv)
 			return
 		}
-		if m, ok := cl.maps[sv.UnsafePointer()]; ok {
+		if m, ok := cl.mapCopy(sv.UnsafePointer()); ok {
 			dv.Set(m)
 			return
 		}
 		m := reflect.MakeMapWithSize(t, sv.Len())
-		if cl.maps == nil {
-			cl.maps = map[unsafe.Pointer]reflect.Value{}
-		}
-		cl.maps[sv.UnsafePointer()] = m
+		cl.maps = append(cl.maps, c07MapCopy{old: sv.UnsafePointer(), new: m})
 		dv.Set(m)
 		vt := t.Elem()
 		for it := sv.MapRange(); it.Next(); {
@@ -453,6 +526,9 @@ func (cl *c07Cloner) copyInto(dst, src unsafe.Pointer, t reflect.Type) {
 			do := reflect.New(vt)
 			cl.copyInto(do.UnsafePointer(), so.UnsafePointer(), vt)
 			m.SetMapIndex(it.Key(), do.Elem()) // keys are values (TagUnion): shared strings are immutable
+			if vt.Kind() == reflect.Ptr && !so.Elem().IsNil() {
+				cl.mapSlots = append(cl.mapSlots, c07MapSlot{m: m, k: it.Key(), old: uintptr(so.Elem().UnsafePointer())})
+			}
 		}
 	case reflect.Slice:
 		sv := reflect.NewAt(t, src).Elem()
